@@ -16,6 +16,8 @@ type RunOp struct {
 	Sched  simrt.Schedule    `json:"sched"`
 	Faults []proto.Fault     `json:"faults,omitempty"`
 	Fresh  bool              `json:"fresh,omitempty"` // start a fresh worker process for this run
+	// RetrySameExecutor: if Execute fails, the caller calls Execute again on the same executor.
+	RetrySameExecutor bool `json:"retry_same_executor,omitempty"`
 	// GoMaxProcs of the (fresh) worker process: go/packages parses and type-checks in parallel, and
 	// the order in which its goroutines register files decides every token.Pos value.
 	GoMaxProcs int `json:"gomaxprocs,omitempty"`
